@@ -83,6 +83,9 @@ def tla_string_to_py(s):
 
 def java_cmd(extra_props=()):
     cmd = ["java", "-Xss1g", "-XX:+UseSerialGC", "-Xmn512m"]
+    # cap the heap: 16 shard JVMs with the default (a quarter of the RAM each) can exhaust the machine
+    if not any(p.startswith("-Xmx") for p in extra_props) and "-Xmx" not in os.environ.get("JAVA_TOOL_OPTIONS", ""):
+        cmd.append("-Xmx" + os.environ.get("VERIF_TLC_HEAP", "3g"))
     cmd += ["-DTLA-Library=" + os.pathsep.join(SPEC_DIRS)]
     cmd += list(extra_props)
     cmd += ["-cp", JAR, "tlc2.TLC"]
